@@ -604,6 +604,19 @@ def streams_for(prop, seed, tier, boost=1):
         add('copies', genmod.copy_stream(G('cp')))
         add('cross-encoder-sensitive', genmod.cross_encoder_sensitive_stream())
         add('ctor-options', genmod.ctor_options_stream(G('co2')), {'nocorr': True})
+    # the application holds trivial SUBCLASSES of Encoder / Decoder / HeaderTable (a counter attribute, a helper method; nothing
+    # overridden): a random stream of the property once more, constructed that way (the model is the same)
+    if prop not in ('C11', 'C12', 'C13', 'C16'):
+        sub = {'C06': lambda: G('subt').table_stream(n_tables=6 * k, n_ops=25), 'C14': lambda: G('subt').table_stream(n_tables=6 * k, n_ops=25),
+               'C02': lambda: G('subd').dec_stream(n_conn=15 * k, mal=0.2), 'C04': lambda: G('subd').dec_stream(n_conn=15 * k, mal=0.5),
+               'C05': lambda: G('subd').dec_stream(n_conn=15 * k, mal=0.5), 'C07': lambda: G('subd').dec_stream(n_conn=15 * k, mal=0.2),
+               'C08': lambda: G('subd').dec_stream(n_conn=15 * k, mal=0.2), 'C17': lambda: G('subd').dec_stream(n_conn=10 * k, mal=0.2),
+               }.get(prop, lambda: G('subc').conn_stream(n_conn=10 * k))
+        if prop == 'C18':
+            ops_s, groups_s = G('suba').api_stream(n=20 * k)
+            add('app-subclasses', ops_s, {'groups': groups_s, 'env': {'HPACK_VERIF_SUBCLASS': '1'}})
+        else:
+            add('app-subclasses', sub(), {'env': {'HPACK_VERIF_SUBCLASS': '1'}})
     return out
 
 
